@@ -151,6 +151,7 @@ theorem nodeEqB_sound (F : Facts) (v2 : Bool) (fuel g1 g2 : Nat) (h : nodeEqB F 
     · simp only [Bool.and_eq_true, decide_eq_true_eq] at hpq
       exact ⟨hpq.1, kidEqB_sound F v2 fuel _ _ hpq.2⟩
   case named.named a _ _ _ b _ _ _ => exact kidEqB_sound F v2 fuel a b h
+  case iface.iface ms ms' => exact of_decide_eq_true h
 
 theorem nodeEq_congr {F : Facts} {v2 : Bool} {a a' b b' : Nat} (ha : F.node a = F.node a') (hb : F.node b = F.node b')
     (h : NodeEq F v2 a' b') : NodeEq F v2 a b := by
